@@ -41,6 +41,7 @@ Record tx : Type := mkTx {
   t_from : list N;     (* public keys of the from slips, in order, interned *)
   t_to : list N;       (* public keys of the to slips, in order, interned *)
   t_rest : N;          (* all other serialised content (full slips, data, path), interned; 0 = all empty *)
+  t_dlen : N;          (* length of the data (payload) field *)
   t_chash : N;         (* oracle input: hash(serialize_for_signature(tx)) as computed by the real code
                           for this content, interned in the table of Leaf ids (used for non-SPV only) *)
   t_hfs : option hv    (* hash_for_signature : Option<SaitoHash> *)
@@ -52,7 +53,8 @@ Definition is_spv (t : tx) : bool := t_ty t =? TY_SPV.
 Definition P_MERKLE_UNWRAP : N := 1801.  (* generate_hash: left/right .hash.unwrap() on None, or right.unwrap() of a carried node without hash *)
 Definition P_ROOT_UNWRAP : N := 1802.    (* get_root_hash: self.root.hash.unwrap() *)
 Definition P_ROOT_EMPTY : N := 1803.     (* leaves.pop_front().unwrap() on an empty list (not reachable: non-empty tx list gives >= 1 leaf) *)
-Definition OutOfFuel {A} : res A := Err. (* no modelled function returns Err otherwise *)
+Definition P_OUT_OF_FUEL : N := 1899.    (* not a site of the code: the model's loop bound; excluded by theorem *)
+Definition OutOfFuel {A} : res A := Panic P_OUT_OF_FUEL.
 
 (* leaves contributed by one transaction:
      if tx.txs_replacements > 1 { r leaves, each Some(tx.hash_for_signature.unwrap_or([0;32])) }
